@@ -1,8 +1,12 @@
-//! `snt_harness tool c20sweep <tables.json> <stride>`: sweep of the colour space in exact integer
-//! arithmetic (i128), independent of Coq: for every visited opaque colour the palette index the real
-//! encoder emits under ColorDepth::EightBit is compared with the exact optimum over the tables the
-//! translator extracted (tables.json = the numbers of Gen/TabColor.v); grey level and true-colour
-//! channels likewise.  stride 1 = all 2^24 colours.  Prints one JSON object.
+//! `snt_harness tool c20sweep <tables.json> <stride> [threads]`: sweep of the colour space in exact integer
+//! arithmetic (i128), independent of Coq.  For every visited opaque colour c the real encoder is asked for
+//! FaceModify { fg: c, bg: rot(c), underline_color: rot(rot(c)) } (rot (r,g,b) = (g,b,r), so with stride 1 each
+//! role sees all 2^24 colours) under each ColorDepth, and every role's answer is compared with the exact
+//! optimum for that role's colour: EightBit against the xterm palette placed by the library's own
+//! sRGB->linear conversion (tolerance 1e-6 in distance) and against the exact model over the typed tables;
+//! Gray against the nearest of the four levels by luma (no underline colour may be emitted); TrueColor
+//! channel by channel.  A panic of the encoder is a violation.  tables.json = the numbers of
+//! Gen/TabColor.v as extracted by the translator.  Prints one JSON object.
 use serde_json::{json, Value};
 use surf_n_term::encoder::{ColorDepth, Encoder, TTYEncoder};
 use surf_n_term::{FaceModify, TerminalCaps, TerminalCommand, RGBA};
@@ -19,9 +23,148 @@ fn params(out: &[u8]) -> Option<Vec<u64>> {
     body.split(';').map(|p| p.parse().ok()).collect()
 }
 
+#[derive(Clone)]
+struct Tables {
+    den: i128,
+    luma_den: i128,
+    cube: Vec<i128>,
+    greys: Vec<i128>,
+    srgb: Vec<i128>,
+    levels: Vec<i128>,
+    xcube: Vec<i128>,
+    xgreys: Vec<i128>,
+}
+
+#[derive(Default)]
+struct Acc {
+    checked: u64,
+    near: u64,
+    model_diff: u64,
+    worst: f64,
+    worst_at: Option<[u64; 4]>,
+    violations: Vec<Value>,
+    near_list: Vec<Value>,
+}
+
+const TOL: f64 = 1e-6;
+const ROLES: [&str; 3] = ["fg", "bg", "underline"];
+
+fn sq(x: i128) -> i128 {
+    x * x
+}
+
+fn encode(enc: &mut TTYEncoder, out: &mut Vec<u8>, cols: [[u8; 3]; 3]) -> bool {
+    out.clear();
+    let c = |k: usize| Some(RGBA::new(cols[k][0], cols[k][1], cols[k][2], 255));
+    let cmd = TerminalCommand::FaceModify(FaceModify { fg: c(0), bg: c(1), underline_color: c(2), ..FaceModify::default() });
+    std::panic::catch_unwind(std::panic::AssertUnwindSafe(|| enc.encode(&mut *out, cmd).is_ok())).unwrap_or(false)
+}
+
+fn sweep(t: &Tables, lo: u32, hi: u32, stride: u32) -> Acc {
+    let caps = |depth| TerminalCaps { depth, glyphs: false, kitty_keyboard: false };
+    let mut enc256 = TTYEncoder::new(caps(ColorDepth::EightBit));
+    let mut encg = TTYEncoder::new(caps(ColorDepth::Gray));
+    let mut enct = TTYEncoder::new(caps(ColorDepth::TrueColor));
+    let mut out = Vec::new();
+    let mut a = Acc::default();
+    let mut code = lo;
+    while code < hi {
+        let (r, g, b) = ((code >> 16) as u8, (code >> 8) as u8, code as u8);
+        code += stride;
+        a.checked += 1;
+        let cols = [[r, g, b], [g, b, r], [b, r, g]];
+        let mut bad = |a: &mut Acc, depth: &str, role: &str, c: [u8; 3], what: Value| {
+            if a.violations.len() < 10 {
+                a.violations.push(json!({"depth": depth, "kind": "sweep", "role": role, "c": c, "first": [r, g, b], "observed": what}));
+            }
+        };
+        // ---- 256 colours
+        let ok = encode(&mut enc256, &mut out, cols);
+        match (ok, params(&out)) {
+            (true, Some(p)) if p.len() == 9 && [p[0], p[1], p[3], p[4], p[6], p[7]] == [38, 5, 48, 5, 58, 5] => {
+                for k in 0..3 {
+                    let c = cols[k];
+                    let n = p[3 * k + 2] as usize;
+                    if !(16..256).contains(&n) {
+                        bad(&mut a, "256", ROLES[k], c, json!(n));
+                        continue;
+                    }
+                    let v = [t.srgb[c[0] as usize], t.srgb[c[1] as usize], t.srgb[c[2] as usize]];
+                    let d2 = |e: [i128; 3]| sq(v[0] - e[0]) + sq(v[1] - e[1]) + sq(v[2] - e[2]);
+                    let pick = |cube: &Vec<i128>, greys: &Vec<i128>| -> [i128; 3] {
+                        if n < 232 {
+                            let m = n - 16;
+                            [cube[m / 36], cube[(m / 6) % 6], cube[m % 6]]
+                        } else {
+                            [greys[n - 232]; 3]
+                        }
+                    };
+                    // exact optimum: the cube minimum separates per channel, greys are scanned
+                    let best = |cube: &Vec<i128>, greys: &Vec<i128>| -> i128 {
+                        let chan = |x: i128| cube.iter().map(|c| sq(x - c)).min().unwrap();
+                        (chan(v[0]) + chan(v[1]) + chan(v[2])).min(greys.iter().map(|t| d2([*t, *t, *t])).min().unwrap())
+                    };
+                    if d2(pick(&t.cube, &t.greys)) != best(&t.cube, &t.greys) {
+                        a.model_diff += 1; // not the exact optimum over the typed tables (f32 rounding)
+                    }
+                    let (di, xbest) = (d2(pick(&t.xcube, &t.xgreys)), best(&t.xcube, &t.xgreys));
+                    if di != xbest {
+                        let excess = ((di as f64).sqrt() - (xbest as f64).sqrt()) / t.den as f64;
+                        a.near += 1;
+                        if k == 0 && a.near_list.len() < 64 {
+                            a.near_list.push(json!({"depth": "256", "kind": "near-tie", "c": c}));
+                        }
+                        if excess > a.worst {
+                            a.worst = excess;
+                            a.worst_at = Some([c[0] as u64, c[1] as u64, c[2] as u64, n as u64]);
+                        }
+                        if excess > TOL {
+                            bad(&mut a, "256", ROLES[k], c, json!({"index": n, "excess": excess}));
+                        }
+                    }
+                }
+            }
+            _ => bad(&mut a, "256", "all", cols[0], json!(String::from_utf8_lossy(&out))),
+        }
+        // ---- grey depth: fg code, bg code; no underline colour
+        let ok = encode(&mut encg, &mut out, cols);
+        match (ok, params(&out)) {
+            (true, Some(p)) if p.len() == 2 => {
+                for k in 0..2 {
+                    let c = cols[k];
+                    let code = if k == 0 { p[0] } else { p[1].wrapping_sub(10) };
+                    let level = match code {
+                        30 => Some(0usize),
+                        90 => Some(1),
+                        37 => Some(2),
+                        97 => Some(3),
+                        _ => None,
+                    };
+                    let lz = 2126 * c[0] as i128 + 7152 * c[1] as i128 + 722 * c[2] as i128;
+                    let best_l = t.levels.iter().map(|l| (lz - l).abs()).min().unwrap();
+                    match level {
+                        Some(l) if ((lz - t.levels[l]).abs() - best_l) as f64 / t.luma_den as f64 <= TOL => {}
+                        _ => bad(&mut a, "gray", ROLES[k], c, json!(p[k])),
+                    }
+                }
+            }
+            _ => bad(&mut a, "gray", "all", cols[0], json!(String::from_utf8_lossy(&out))),
+        }
+        // ---- true colour
+        let ok = encode(&mut enct, &mut out, cols);
+        let want: Vec<u64> = (0..3)
+            .flat_map(|k| vec![[38u64, 48, 58][k], 2, cols[k][0] as u64, cols[k][1] as u64, cols[k][2] as u64])
+            .collect();
+        if !ok || params(&out) != Some(want) {
+            bad(&mut a, "true", "all", cols[0], json!(String::from_utf8_lossy(&out)));
+        }
+    }
+    a
+}
+
 pub fn main(args: &[String]) -> i32 {
     if args.len() < 2 {
-        eprintln!("usage: tool c20sweep tables.json stride");
+        eprintln!("usage: tool c20sweep tables.json stride [threads]");
         return 2;
     }
     let tables: Value = match std::fs::read_to_string(&args[0]).ok().and_then(|s| serde_json::from_str(&s).ok()) {
@@ -31,128 +174,62 @@ pub fn main(args: &[String]) -> i32 {
             return 2;
         }
     };
-    let stride: u32 = args[1].parse().unwrap_or(61).max(1);
-    let den = ints(&tables["den"])[0];
-    let cube = ints(&tables["cube"]);
-    let greys = ints(&tables["greys"]);
+    let stride: u32 = args[1].parse().unwrap_or(7).max(1);
+    let threads: u32 = args.get(2).and_then(|s| s.parse().ok()).unwrap_or(8).clamp(1, 64);
     let srgb = ints(&tables["srgb"]);
-    let levels = ints(&tables["gray_levels"]);
-    // the palette entries themselves, placed by the library's own conversion of the xterm levels
-    let xcube: Vec<i128> = [0usize, 95, 135, 175, 215, 255].iter().map(|l| srgb[*l]).collect();
-    let xgreys: Vec<i128> = (0..24usize).map(|k| srgb[8 + 10 * k]).collect();
-    let luma_den = ints(&tables["luma_den"])[0];
-    if cube.len() != 6 || greys.len() != 24 || srgb.len() != 256 || levels.len() != 4 {
+    if srgb.len() != 256 {
         eprintln!("unexpected table sizes");
         return 2;
     }
-    let sq = |x: i128| x * x;
-    let mut enc256 = TTYEncoder::new(TerminalCaps { depth: ColorDepth::EightBit, glyphs: false, kitty_keyboard: false });
-    let mut encg = TTYEncoder::new(TerminalCaps { depth: ColorDepth::Gray, glyphs: false, kitty_keyboard: false });
-    let mut enct = TTYEncoder::new(TerminalCaps { depth: ColorDepth::TrueColor, glyphs: false, kitty_keyboard: false });
-    let mut out = Vec::new();
-    let tol = 1e-6f64;
-    let (mut checked, mut near, mut worst) = (0u64, 0u64, 0f64);
-    let mut model_diff = 0u64;
-    let mut worst_at = json!(null);
-    let mut violations: Vec<Value> = vec![];
-    let mut near_list: Vec<Value> = vec![];
-    let mut code = 0u32;
-    while code < (1 << 24) {
-        let (r, g, b) = ((code >> 16) as u8, (code >> 8) as u8, code as u8);
-        code += stride;
-        checked += 1;
-        let color = RGBA::new(r, g, b, 255);
-        let cmd = || TerminalCommand::FaceModify(FaceModify { fg: Some(color), ..FaceModify::default() });
-        // ---- 256 colours
-        out.clear();
-        let _ = enc256.encode(&mut out, cmd());
-        let v = [srgb[r as usize], srgb[g as usize], srgb[b as usize]];
-        let d2 = |e: [i128; 3]| sq(v[0] - e[0]) + sq(v[1] - e[1]) + sq(v[2] - e[2]);
-        // exact optimum: the cube minimum separates per channel, greys are scanned
-        let chan = |x: i128| cube.iter().map(|c| sq(x - c)).min().unwrap();
-        let best_cube = chan(v[0]) + chan(v[1]) + chan(v[2]);
-        let best_grey = greys.iter().map(|t| d2([*t, *t, *t])).min().unwrap();
-        let best = best_cube.min(best_grey);
-        match params(&out) {
-            Some(p) if p.len() == 3 && p[0] == 38 && p[1] == 5 && (16..256).contains(&p[2]) => {
-                let n = p[2] as usize;
-                let e = if n < 232 {
-                    let m = n - 16;
-                    [cube[m / 36], cube[(m / 6) % 6], cube[m % 6]]
-                } else {
-                    [greys[n - 232]; 3]
-                };
-                if d2(e) != best {
-                    // not the exact optimum with respect to the typed tables (f32 rounding)
-                    model_diff += 1;
+    let t = Tables {
+        den: ints(&tables["den"])[0],
+        luma_den: ints(&tables["luma_den"])[0],
+        cube: ints(&tables["cube"]),
+        greys: ints(&tables["greys"]),
+        levels: ints(&tables["gray_levels"]),
+        // the palette entries themselves, placed by the library's own conversion of the xterm levels
+        xcube: [0usize, 95, 135, 175, 215, 255].iter().map(|l| srgb[*l]).collect(),
+        xgreys: (0..24usize).map(|k| srgb[8 + 10 * k]).collect(),
+        srgb,
+    };
+    if t.cube.len() != 6 || t.greys.len() != 24 || t.levels.len() != 4 {
+        eprintln!("unexpected table sizes");
+        return 2;
+    }
+    std::panic::set_hook(Box::new(|_| {}));
+    // contiguous blocks whose first element is a multiple of the stride
+    let total: u32 = 1 << 24;
+    let block = (total / threads / stride + 1) * stride;
+    let handles: Vec<_> = (0..threads)
+        .map(|i| {
+            let t = t.clone();
+            let (lo, hi) = ((i * block).min(total), ((i + 1) * block).min(total));
+            std::thread::spawn(move || sweep(&t, lo, hi, stride))
+        })
+        .collect();
+    let mut acc = Acc::default();
+    for h in handles {
+        match h.join() {
+            Ok(a) => {
+                acc.checked += a.checked;
+                acc.near += a.near;
+                acc.model_diff += a.model_diff;
+                if a.worst > acc.worst {
+                    acc.worst = a.worst;
+                    acc.worst_at = a.worst_at;
                 }
-                // property: with respect to the palette entries placed by the library's own conversion
-                let xe = if n < 232 {
-                    let m = n - 16;
-                    [xcube[m / 36], xcube[(m / 6) % 6], xcube[m % 6]]
-                } else {
-                    [xgreys[n - 232]; 3]
-                };
-                let xchan = |x: i128| xcube.iter().map(|c| sq(x - c)).min().unwrap();
-                let xbest = (xchan(v[0]) + xchan(v[1]) + xchan(v[2])).min(xgreys.iter().map(|t| d2([*t, *t, *t])).min().unwrap());
-                let di = d2(xe);
-                if di != xbest {
-                    let excess = ((di as f64).sqrt() - (xbest as f64).sqrt()) / den as f64;
-                    near += 1;
-                    if near_list.len() < 64 {
-                        near_list.push(json!({"depth": "256", "kind": "near-tie", "c": [r, g, b]}));
-                    }
-                    if excess > worst {
-                        worst = excess;
-                        worst_at = json!([r, g, b, n]);
-                    }
-                    if excess > tol && violations.len() < 10 {
-                        violations.push(json!({"depth": "256", "kind": "sweep", "c": [r, g, b], "index": n, "excess": excess}));
-                    }
-                }
+                acc.violations.extend(a.violations);
+                acc.near_list.extend(a.near_list);
             }
-            _ => {
-                if violations.len() < 10 {
-                    violations.push(json!({"depth": "256", "kind": "sweep", "c": [r, g, b], "bytes": String::from_utf8_lossy(&out)}));
-                }
-            }
-        }
-        // ---- grey depth
-        out.clear();
-        let _ = encg.encode(&mut out, cmd());
-        let lz = 2126 * r as i128 + 7152 * g as i128 + 722 * b as i128;
-        let best_l = levels.iter().map(|l| (lz - l).abs()).min().unwrap();
-        let level = match params(&out).as_deref() {
-            Some([30]) => Some(0),
-            Some([90]) => Some(1),
-            Some([37]) => Some(2),
-            Some([97]) => Some(3),
-            _ => None,
-        };
-        match level {
-            Some(l) => {
-                let d = (lz - levels[l]).abs();
-                if (d - best_l) as f64 / luma_den as f64 > tol && violations.len() < 10 {
-                    violations.push(json!({"depth": "gray", "kind": "sweep", "c": [r, g, b], "level": l}));
-                }
-            }
-            None => {
-                if violations.len() < 10 {
-                    violations.push(json!({"depth": "gray", "kind": "sweep", "c": [r, g, b], "bytes": String::from_utf8_lossy(&out)}));
-                }
-            }
-        }
-        // ---- true colour
-        out.clear();
-        let _ = enct.encode(&mut out, cmd());
-        if params(&out) != Some(vec![38, 2, r as u64, g as u64, b as u64]) && violations.len() < 10 {
-            violations.push(json!({"depth": "true", "kind": "sweep", "c": [r, g, b], "bytes": String::from_utf8_lossy(&out)}));
+            Err(_) => acc.violations.push(json!({"depth": "?", "kind": "sweep", "observed": "worker thread died"})),
         }
     }
+    acc.violations.truncate(10);
     println!(
         "{}",
-        json!({"checked": checked, "stride": stride, "near_ties": near, "differs_from_exact_model": model_diff, "worst_excess": worst, "worst_at": worst_at,
-               "tolerance": tol, "violations": violations, "near_tie_colours": near_list})
+        json!({"checked": acc.checked, "stride": stride, "roles": ROLES, "near_ties": acc.near,
+               "differs_from_exact_model": acc.model_diff, "worst_excess": acc.worst, "worst_at": acc.worst_at,
+               "tolerance": TOL, "violations": acc.violations, "near_tie_colours": acc.near_list})
     );
     0
 }
